@@ -107,6 +107,9 @@ let parse_op (toks : string list) : op =
   | ["free"; i] -> OpFree (n i)
   | ["stradd"; i; s] -> OpStrAdd (n i, h s)
   | ["strget"; i; idx] -> OpStrGet (n i, n idx)
+  | ["straddself"; i; idx] -> OpStrAddSelf (n i, n idx)
+  | ["dappself"; i; off; len] -> OpDAppSelf (n i, n off, n len)
+  | ["noteaddself"; k; t; nm; idx] -> OpNoteAddSelf (n k, n t, h nm, n idx)
   | ["symadd"; a; b; c; d; e; f; g] -> OpSymAdd (n a, n b, n c, n d, n e, n f, n g)
   | ["symadds"; a; b; nm; c; d; e; f; g] -> OpSymAddS (n a, n b, h nm, n c, n d, n e, n f, n g)
   | ["symget"; a; b] -> OpSymGet (n a, n b)
